@@ -289,9 +289,24 @@ def judge(sc, res):
     return [('unexplained:' + '+'.join(problems), detail)]
 
 # ------------------------------------------------------------------ T1: the Gallina model on the same scenarios
+_FACTS = {}
+def src_facts_text():
+    """the facts of the tree under test, generated privately (the shared coq/Gen file can be rewritten by a concurrent
+    run against another tree) and inlined into the case files"""
+    if 'text' not in _FACTS:
+        p = subprocess.run([os.path.join(core.VERIF, 'tools', 'gen', 'gen_gitrefs.py'), '--stdout'], capture_output=True, text=True,
+                           env=dict(os.environ, NBDIME_REPO=core.REPO))
+        if p.returncode != 0:
+            _FACTS['text'] = None; _FACTS['err'] = (p.stderr + p.stdout)[-1500:]
+        else:
+            _FACTS['text'] = p.stdout[p.stdout.index('Definition src_facts'):]
+    return _FACTS['text']
+
+
 PRELUDE = r'''From Coq Require Import List NArith Bool Arith.
-From NB Require Import Base.Json Sys.GitRefs Gen.GitRefsFacts.
+From NB Require Import Base.Json Sys.GitRefs.
 Import ListNotations.
+(*FACTS*)
 Fixpoint path_eqb (a b : path) : bool :=
   match a, b with [], [] => true | x :: xs, y :: ys => str_eqb x y && path_eqb xs ys | _, _ => false end.
 Fixpoint paths_eqb (a b : list path) : bool :=
@@ -407,7 +422,7 @@ def run_model(term_list):
     if not term_list: return set(), None
     d = tempfile.mkdtemp(prefix='nbv_c17_coq_')
     try:
-        src = PRELUDE + 'Definition cases : list (nat * bool) := [\n' + ';\n'.join('(%d, %s)' % (i, t) for i, (_, t) in enumerate(term_list)) + '].\n'
+        src = PRELUDE.replace('(*FACTS*)', src_facts_text()) + 'Definition cases : list (nat * bool) := [\n' + ';\n'.join('(%d, %s)' % (i, t) for i, (_, t) in enumerate(term_list)) + '].\n'
         src += 'Definition bad := map fst (filter (fun p => negb (snd p)) cases).\nEval vm_compute in bad.\n'
         open(os.path.join(d, 'cases.v'), 'w').write(src)
         p = subprocess.run(['timeout', '900', 'coqc', '-Q', core.COQ, 'NB', 'cases.v'], cwd=d, capture_output=True, text=True)
@@ -426,7 +441,7 @@ def model_value(call):
     if not call: return None
     d = tempfile.mkdtemp(prefix='nbv_c17_coq_')
     try:
-        open(os.path.join(d, 'one.v'), 'w').write(PRELUDE + 'Definition r := %s.\nEval vm_compute in (r_yields r, r_cwd r, r_raised r).\n' % call)
+        open(os.path.join(d, 'one.v'), 'w').write(PRELUDE.replace('(*FACTS*)', src_facts_text()) + 'Definition r := %s.\nEval vm_compute in (r_yields r, r_cwd r, r_raised r).\n' % call)
         p = subprocess.run(['timeout', '120', 'coqc', '-Q', core.COQ, 'NB', 'one.v'], cwd=d, capture_output=True, text=True)
         return (p.stdout + p.stderr)[-1500:]
     finally:
@@ -454,9 +469,40 @@ def strip(sc):
     return {k: sc[k] for k in ('root_rel', 'ops', 'query', 'decoys', 'filter') if k in sc}
 
 
+OWN_CLOSURE = ['Base/Json.v', 'Sys/GitRefs.v', 'Gen/GitRefsFacts.v', 'Sys/GitRefsProofs.v', 'Props/C17.v']
+
+
+def own_build(b):
+    """The shared build (every member's translators and files) failed.  If that is not this property's doing, bring this
+    property's own closure up to date directly (same lock, same coqc, same -Q mapping), so that somebody else's broken
+    file is not reported as a broken C17 obligation."""
+    import fcntl
+    lock = open(os.path.join(core.VERIF, '.coq-build.lock'), 'w')
+    fcntl.flock(lock, fcntl.LOCK_EX)
+    try:
+        p = subprocess.run([os.path.join(core.VERIF, 'tools', 'gen', 'gen_gitrefs.py')], capture_output=True, text=True,
+                           env=dict(os.environ, NBDIME_REPO=core.REPO))
+        if p.returncode != 0:
+            b.ok = False; b.gen_error = (p.stderr + p.stdout)[-2000:]; return b
+        b.gen_error = None
+        newest = 0.0
+        for f in OWN_CLOSURE:
+            src = os.path.join(core.COQ, f); vo = src[:-2] + '.vo'
+            if not os.path.exists(vo) or os.path.getmtime(vo) < max(os.path.getmtime(src), newest):
+                p = subprocess.run(['timeout', '600', 'coqc', '-Q', '.', 'NB', '-w', '-notation-overridden,-deprecated-hint-without-locality', f],
+                                   cwd=core.COQ, capture_output=True, text=True)
+                if p.returncode != 0:
+                    b.ok = False; b.failed_file = f; b.log = (p.stdout + p.stderr)[-3000:]; return b
+            newest = max(newest, os.path.getmtime(vo))
+        b.ok = True; b.failed_file = None
+        return b
+    finally:
+        fcntl.flock(lock, fcntl.LOCK_UN); lock.close()
+
+
 def run(tier, seed):
     chk = core.Check(PROP, tier, seed)
-    b = core.build()
+    b = own_build(core.build())
     chk.proof_obligations('Props/C17.v', b)
     cases = gen_cases(chk, tier)
     results = run_scenarios(cases)
@@ -486,9 +532,9 @@ def run(tier, seed):
         t1 += 1
         for lab, t, call in ts: terms.append(((i, lab), t)); calls[(i, lab)] = call
     mism = 0
-    vo = os.path.join(core.COQ, 'Gen', 'GitRefsFacts.vo')
-    if not os.path.exists(vo):
-        chk.broken_obligation('model-build', 'Gen/GitRefsFacts.vo missing: ' + (b.log or '')[-600:]); t1 = 0
+    vo = os.path.join(core.COQ, 'Sys', 'GitRefs.vo')
+    if not os.path.exists(vo) or src_facts_text() is None:
+        chk.broken_obligation('model-build', 'Sys/GitRefs.vo or the generated facts missing: ' + str(_FACTS.get('err') or b.log or '')[-600:]); t1 = 0
     else:
         bad, err = run_model(terms)
         if bad is None:
